@@ -16,7 +16,7 @@ import (
 
 func init() {
 	Describe("C17", &PropInfo{
-		Rule: "grammars from productive/prec/lalr/separators families, half of them renamed from the identifier pools and with literals drawn from all printable ASCII characters except blank and backslash; inputs = strings up to a length bound, sampled and mutated sentences (declared tokens only); the four Go variants run with IsTrace = true and stdout captured per parse. Non-trivial = a trace with >= 3 reductions one of which is an empty-rule reduction; distinct by grammar text + input",
+		Rule: "grammars from productive/prec/lalr/separators families, half of them renamed from the identifier pools and with literals drawn from all printable ASCII characters except blank and backslash; inputs = strings up to a length bound, sampled and mutated sentences (declared tokens only); the four Go variants run with IsTrace = true and stdout captured per parse; during every third parse the action of an early reduction starts a nested parser run (PushContex/ParserInit/Parser/PopContex, or a second context with -o) whose own trace is bracketed and skipped. Non-trivial = a trace with >= 3 reductions one of which is an empty-rule reduction; distinct by grammar text + input",
 		Assumptions: []string{
 			"line formats are those of README.md: 'Shift <symbol>, push state <n>' and 'look ahead <token>, use Reduce:<lhs> -> <rhs> , go to state <n>'; rule texts are compared token by token after collapsing runs of blanks",
 			"undeclared token codes are not fed here (they have no name the trace could print)",
@@ -87,6 +87,7 @@ func drawC17(t *rapid.T) *TGCase {
 	}
 	cs.Inputs = ins
 	cs.Variants = []string{"go", "go-u", "go-o", "go-ou"}
+	cs.NestEvery = 3
 	return cs
 }
 
@@ -187,7 +188,19 @@ func evalC17(c *Ctx, cs *TGCase, vr map[string]*gen.VRes) (string, []int) {
 			pendingGoto := -1
 			pendingLHS := -1
 			sawEps := false
+			inNest := false
 			for li, line := range lines {
+				if line == "@@NEST-BEGIN" {
+					inNest = true
+					continue
+				}
+				if line == "@@NEST-END" {
+					inNest = false
+					continue
+				}
+				if inNest {
+					continue // trace of the nested run (its own parse), not part of this run
+				}
 				if m := reReduce.FindStringSubmatch(line); m != nil {
 					if pendingGoto >= 0 {
 						return bad("line %d: a reduction is printed before the goto of the previous one was pushed", li+1)
